@@ -1,10 +1,10 @@
 SPECIFICATION Spec
 CONSTANTS
   MaxLen = 8
-  MaxDepth = 3
+  MaxDepth = 1
   Fuel = 100
-  Alphabet = {"O", "IO", "C", "IG", "L", "LP", "P", "INC"}
-  Shape = "any"
+  Alphabet = {"O", "C", "IG", "L", "LP", "P", "INC"}
+  Shape = "loop"
   Names = {"y"}
 INVARIANTS MachineSane NoUB Monitors Scans EmitCase
 CHECK_DEADLOCK FALSE
